@@ -17,6 +17,9 @@ pub enum Op {
     Peek(usize),
     PopExcept(usize, u64),
     Eat(usize, String, bool),
+    /// eat with a caller-supplied comparison: 2 = loose (ASCII case-insensitive and '-', '_', ' '
+    /// interchangeable), 3 = letters equal letters and digits equal digits, 4 = nothing equal
+    EatWith(usize, String, u8),
     PopFront(usize),
     IsEmpty(usize),
     PeekChunk(usize),
@@ -123,6 +126,18 @@ pub fn decode(s: &mut Src) -> Case {
             ops.push(Op::Eat(q, pat.iter().collect(), ci));
             continue;
         }
+        if w == 0 && s.chance(12) {
+            // many buffers queued at once (the queue's container grows), most of them read again
+            let k = *s.pick(&[15usize, 16, 17, 18, 31, 32, 33, 40]);
+            for _ in 0..k {
+                ops.push(Op::PushBack(q, gen_string(s, 2)));
+            }
+            for _ in 0..s.below(k + 3) {
+                ops.push(if s.bool() { Op::Next(q) } else { Op::PopFront(q) });
+            }
+            ops.push(s.pick(&[Op::Replace(q), Op::Replace(1 - q), Op::Swap, Op::CloneCheck(q)]).clone());
+            continue;
+        }
         let op = match w {
             0 => Op::PushBack(q, gen_string(s, 20)),
             1 => Op::PushFront(q, gen_string(s, 12)),
@@ -139,7 +154,12 @@ pub fn decode(s: &mut Src) -> Case {
                     }
                     p
                 };
-                Op::Eat(q, pat, s.bool())
+                if s.chance(60) {
+                    let pat = pat.replace('-', if s.bool() { "_" } else { " " });
+                    Op::EatWith(q, pat, 2 + s.below(3) as u8)
+                } else {
+                    Op::Eat(q, pat, s.bool())
+                }
             },
             6 => Op::PopFront(q),
             7 => Op::IsEmpty(q),
@@ -151,6 +171,28 @@ pub fn decode(s: &mut Src) -> Case {
         ops.push(op);
     }
     Case { ops }
+}
+
+fn eq_loose(a: &u8, b: &u8) -> bool {
+    let n = |c: u8| if matches!(c, b'-' | b'_' | b' ') { b'-' } else { c.to_ascii_lowercase() };
+    n(*a) == n(*b)
+}
+/// any two ASCII letters are equal, any two ASCII digits are equal (a comparison must not equate
+/// bytes of different UTF-8 roles, or a match would end inside a character)
+fn eq_class(a: &u8, b: &u8) -> bool {
+    (a.is_ascii_alphabetic() && b.is_ascii_alphabetic()) || (a.is_ascii_digit() && b.is_ascii_digit()) || a == b
+}
+fn eq_none(_: &u8, _: &u8) -> bool {
+    false
+}
+fn eq_of(kind: u8) -> fn(&u8, &u8) -> bool {
+    match kind {
+        0 => u8::eq,
+        1 => u8::eq_ignore_ascii_case,
+        2 => eq_loose,
+        3 => eq_class,
+        _ => eq_none,
+    }
 }
 
 #[derive(Default, Clone)]
@@ -276,12 +318,14 @@ pub fn oracle(case: &Case, st: &mut Stats) -> Result<(), String> {
                     },
                 }
             },
-            Op::Eat(q, pat, ci) => {
-                let got = if *ci {
-                    qs[*q].eat(pat, u8::eq_ignore_ascii_case)
-                } else {
-                    qs[*q].eat(pat, u8::eq)
+            Op::Eat(..) | Op::EatWith(..) => {
+                let (q, pat, kind) = match op {
+                    Op::Eat(q, pat, ci) => (q, pat, if *ci { 1u8 } else { 0u8 }),
+                    Op::EatWith(q, pat, k) => (q, pat, *k),
+                    _ => unreachable!(),
                 };
+                let eqf = eq_of(kind);
+                let got = qs[*q].eat(pat, eqf);
                 let m = &mut ms[*q];
                 let fb = m.first_buf_len();
                 let mb = m.flat.as_bytes();
@@ -294,11 +338,7 @@ pub fn oracle(case: &Case, st: &mut Stats) -> Result<(), String> {
                         exp = None;
                         break;
                     }
-                    let eq = if *ci {
-                        mb[k].eq_ignore_ascii_case(&pb[k])
-                    } else {
-                        mb[k] == pb[k]
-                    };
+                    let eq = eqf(&mb[k], &pb[k]);
                     if !eq {
                         matched = false;
                         exp = Some(false);
